@@ -26,9 +26,26 @@ TRUSTED = ["frozen 3-row correspondence LiteralKind<->TokenValue (kinds.py), val
 GENERAL_EVAL = ('eval::eval_any', 'eval::eval_terminal', 'eval::eval_variable')
 
 
-def polarity(row):
+def branch_is_error(e):
+    """does the branch construct an error result (`return Err(..)`, a tail `Err(..)`) or return early?"""
+    return e is not None and any(x['k'] == 'ret' or (x['k'] == 'call' and variant_of(x['f']) == 'Err') for x, _ in hir_walk(e))
+
+
+def _if_polarity(if_e, neg):
+    """admitted_when for a predicate occurring under `neg` negations in the condition of if_e, whichever branch is the error"""
+    then_err = branch_is_error(if_e['then'])
+    else_err = branch_is_error(if_e.get('else'))
+    if then_err and not else_err:
+        return neg % 2 == 1        # condition true -> error
+    if else_err and not then_err:
+        return neg % 2 == 0        # condition true -> success
+    return None
+
+
+def polarity(row, body=None):
     """For a predicate call site: (admitted_when, conditional).  admitted_when = True means tags for which the
-    predicate returns true are admitted (error branch taken when it is false)."""
+    predicate returns true are admitted (error branch taken when it is false).  Understands `if !p { return Err }`,
+    `if p { Ok } else { Err }` and a predicate bound to a local that is tested afterwards."""
     e, anc = row['expr'], row['anc']
     neg = 0
     conditional = False
@@ -44,13 +61,21 @@ def polarity(row):
             if parent['op'] == 'And' and not has_pred:
                 conditional = True
         elif k == 'if' and lab[0] == 'cond':
-            then = parent['then']
-            returns_err = any(x['k'] == 'ret' or (x['k'] == 'call' and variant_of(x['f']) == 'Err')
-                              for x, _ in hir_walk(then))
-            if not returns_err:
-                return None, conditional
-            # cond true -> error. cond contains pred under `neg` negations.
-            return (neg % 2 == 1), conditional
+            return _if_polarity(parent, neg), conditional
+        elif k == 'block' and lab[0] == 'local' and lab[1]['k'] == 'bind' and body is not None:
+            # `let ok = <predicate expression>;` ... `if ok {..} else {..}` / `if !ok { return Err }`
+            hid = lab[1]['hid']
+            for e2, anc2 in hir_walk(body):
+                if e2['k'] == 'path' and e2['p'].get('res') == 'local' and e2['p'].get('hid') == hid:
+                    n2 = neg
+                    for p2, l2 in reversed(anc2):
+                        if p2['k'] == 'unary' and p2.get('op') == 'Not':
+                            n2 += 1
+                        elif p2['k'] == 'if' and l2[0] == 'cond':
+                            return _if_polarity(p2, n2), conditional
+                        elif p2['k'] not in ('addr', 'block', 'binary', 'cast'):
+                            break
+            return None, conditional
         elif k in ('closure', 'mcall', 'call', 'block', 'match', 'let', 'addr'):
             if k == 'mcall' and parent['name'] not in ('all',) and lab[0] in ('marg',):
                 # predicate inside a closure passed to something other than all(): not interpreted
@@ -61,10 +86,14 @@ def polarity(row):
 
 
 def cond_tagset(T, fn, want_branch):
-    """In `fn`, find the if whose then-branch satisfies want_branch(then) and whose condition applies tag predicates
-    to one local; return ({tag: truth}, if-expr) or (None, None)."""
+    """In `fn`, find the if one of whose branches satisfies want_branch and whose condition applies tag predicates to one
+    local; return ({tag: truth of "that branch is taken"}, if-expr) or (None, None)."""
     for e, anc in hir_walk(fn.hir['body']):
-        if e['k'] != 'if' or not want_branch(e['then']):
+        if e['k'] != 'if':
+            continue
+        on_then = want_branch(e['then'])
+        on_else = e.get('else') is not None and want_branch(e['else'])
+        if on_then == on_else:
             continue
         recv = None
         for x, _ in hir_walk(e['cond']):
@@ -78,7 +107,10 @@ def cond_tagset(T, fn, want_branch):
             continue
         res = {}
         for t in T.tags:
-            res[t] = T.it.truth(e['cond'], t, {recv: 'TRACKED'})
+            v = T.it.truth(e['cond'], t, {recv: 'TRACKED'})
+            if on_else and v in (TRUE, FALSE):
+                v = FALSE if v == TRUE else TRUE
+            res[t] = v
         return res, e
     return None, None
 
@@ -91,7 +123,7 @@ def assigns_is_recursive(then):
 
 
 def returns_err(then):
-    return any(x['k'] == 'ret' for x, _ in hir_walk(then))
+    return branch_is_error(then)
 
 
 def closure_sets(c, T, ck):
@@ -202,7 +234,8 @@ def r1_agree(c, facts, T):
         unknown = False
         for r in ck:
             if r['pos'] == pos and overlap(g, r['guard']):
-                pol, conditional = polarity(r)
+                body = facts.fn(r['fn']).hir['body'] if facts.fn(r['fn']) is not None else None
+                pol, conditional = polarity(r, body)
                 if conditional:
                     continue
                 if pol is None:
